@@ -352,6 +352,9 @@ func (r *recorder) client(seed int64, iters int, spread time.Duration, wg *sync.
 				}
 				if n := len(alive); n > 0 {
 					p = alive[n-1-rng.Intn(min(n, 3))]
+				} else if int(r.opens.Load()) >= recNSess-2*recNThr {
+					r.pubMu.Unlock()
+					return // every session has ended and no more may be opened
 				}
 			}
 		}
